@@ -235,6 +235,7 @@ def check(prog: Program, tier: str) -> Result:
     _check_stale_and_memo(prog, res)
     _check_design_rebuilt(prog, res)
     _check_lazy_tables(prog, res)
+    _check_decorator_memos(prog, res)
     _check_setters(prog, res, ea)
     _check_nominal_height(prog, res)
     return res
@@ -677,6 +678,40 @@ def _check_keyless_memos(prog: Program, res: Result):
     res.count("object_tables", n_tab)
 
 
+EXTERNAL_READS = ("read_text", "read_bytes", "open", "read", "readlines", "getenv", "environ", "stat", "exists", "listdir", "glob", "iterdir", "load", "getmtime")
+
+
+def _check_decorator_memos(prog: Program, res: Result):
+    """R13.13: a function under lru_cache / cache is keyed by its arguments only.  If its body reads something that can change
+    while the argument stays the same - a file (the argument is its PATH), the environment, the clock, an attribute of an object
+    that is not part of the key - a later call with the same argument is answered with what was read the first time."""
+    from ..model import memo_decorated
+
+    n = 0
+    for q, fi in sorted(prog.funcs.items()):
+        dec = memo_decorated(fi)
+        if dec is None:
+            continue
+        n += 1
+        ext = None
+        for x in walk_no_nested(fi.node):
+            if isinstance(x, ast.Call):
+                c = attr_chain(x.func) or (x.func.attr if isinstance(x.func, ast.Attribute) else "")
+                last = c.split(".")[-1]
+                if last in EXTERNAL_READS or c in NONDET_CALLS:
+                    ext = (x, c)
+                    break
+            if isinstance(x, ast.Attribute) and attr_chain(x) and attr_chain(x).startswith("self.") and isinstance(x.ctx, ast.Load) and "self" in fi.params():
+                ext = (x, attr_chain(x) + " (an attribute that can be re-assigned while the object stays the same key)")
+                break
+        res.ob("R13.13", f"{fi.name} is cached ({dec}) and computes from its arguments only", ext is None, prog.loc(fi, fi.node))
+        if ext is not None:
+            res.violation("R13.13", f"memo-external|{q}|{ext[1][:40]}", prog.loc(fi, ext[0]), q,
+                          f"{fi.name} is cached by {dec} under its arguments, but its result is read from {ext[1]}: when that changes and the argument does not "
+                          "(the same path, another content), the earlier result is returned - what a run sees depends on what was done before in the process")
+    res.count("decorator_memos", n)
+
+
 def _check_param_mutation(prog: Program, res: Result):
     """R13.7: a function that changes a list / dict / array PARAMETER in place changes its caller's object.  That carries
     state from call to call exactly when some call site hands over stored state: an attribute, an element of an attribute
@@ -897,6 +932,19 @@ def _check_nominal_height(prog: Program, res: Result):
 
 M = "ghedesigner.manager"
 VARIANTS = [
+    Variant("parsed input file cached by its path (seeded C18_j)", "break",
+            [("ghedesigner.validate", "import sys\nfrom json import loads\n", "import sys\nfrom functools import lru_cache\nfrom json import loads\n"),
+             ("ghedesigner.validate", "def validate_schema_instance(schema_file_name: str, instance: dict, error_msg: str) -> int:",
+              "@lru_cache(maxsize=32)\ndef read_input_file(input_file_path: Path) -> dict:\n    return loads(input_file_path.read_text())\n\n\ndef validate_schema_instance(schema_file_name: str, instance: dict, error_msg: str) -> int:"),
+             ("ghedesigner.validate", "    instance = loads(input_file_path.read_text())\n\n    # validate", "    instance = read_input_file(input_file_path)\n\n    # validate")], "R13.13"),
+    Variant("month names served from a cache (pure function of its argument)", "benign",
+            [("ghedesigner.ground_loads", "import warnings\nfrom calendar import monthrange\n", "import warnings\nfrom calendar import monthrange\nfrom functools import lru_cache\n"),
+             ("ghedesigner.ground_loads", "def number_to_month(x):", "@lru_cache(maxsize=None)\ndef number_to_month(x):")]),
+    Variant("rectangle() memoised and transposed in place (seeded C03_j)", "break",
+            [("ghedesigner.coordinates", "from typing import List, Tuple, Union\n", "from functools import lru_cache\nfrom typing import List, Tuple, Union\n"),
+             ("ghedesigner.coordinates", "    coordinates_transposed = []\n    for x, y in coordinates:\n        coordinates_transposed.append((y, x))\n    return coordinates_transposed",
+              "    for i, (x, y) in enumerate(coordinates):\n        coordinates[i] = (y, x)\n    return coordinates"),
+             ("ghedesigner.coordinates", "def rectangle(\n", "@lru_cache(maxsize=None)\ndef rectangle(\n")], "R13.7"),
     Variant("the last equivalent pipe conductivity is remembered on the class and narrows the next search (seeded C15_g)", "break",
             [("ghedesigner.borehole_heat_exchangers", "class GHEDesignerBoreholeWithMultiplePipes(GHEDesignerBoreholeBase):\n", "class GHEDesignerBoreholeWithMultiplePipes(GHEDesignerBoreholeBase):\n    _k_p_equivalent = None\n\n"),
              ("ghedesigner.borehole_heat_exchangers", "        return eq_single_u_tube\n\n    def match_effective_borehole_resistance", "        GHEDesignerBoreholeWithMultiplePipes._k_p_equivalent = eq_single_u_tube.pipe.k\n        return eq_single_u_tube\n\n    def match_effective_borehole_resistance")], "R13.8"),
